@@ -90,6 +90,9 @@ func (w *walker) ty(path string, d *thrift.TypeDescriptor, t *Ty) {
 }
 
 func wantBit(f *Fld, o Opts) bool {
+	if f.RootBase && o.EnableThriftBase {
+		return false // the base of a request / response travels through the context: never owed by the message
+	}
 	return f.Req != tm.ReqOptional || o.SetOptionalBitmap
 }
 
@@ -502,7 +505,7 @@ func check(c *pbt.Ctx, cs Case) {
 		ParseFunctionMode: meta.ParseFunctionMode(cs.O.FunctionMode), ApiBodyFastPath: cs.O.ApiBodyFastPath, EnableThriftBase: cs.O.EnableThriftBase}
 	want, svcName, dupErr := expectedFns(cs.M, cs.O)
 	c.Step("parse opts=%+v", cs.O)
-	svc, err := opts.NewDescritorFromContent(context.Background(), "main.thrift", cs.M.Files["main.thrift"], map[string]string{"inc.thrift": cs.M.Files["inc.thrift"], "root.thrift": cs.M.Files["root.thrift"]}, true)
+	svc, err := opts.NewDescritorFromContent(context.Background(), "main.thrift", cs.M.Files["main.thrift"], map[string]string{"inc.thrift": cs.M.Files["inc.thrift"], "root.thrift": cs.M.Files["root.thrift"], "base.thrift": cs.M.Files["base.thrift"]}, true)
 	if dupErr != nil {
 		// the same function reached twice through inheritance in combined mode: rejecting is allowed
 		c.Class("duplicate-through-inheritance")
@@ -625,7 +628,7 @@ func check(c *pbt.Ctx, cs Case) {
 
 var Prop = pbt.Register(pbt.Prop[Case]{
 	Name: "TestThriftDescriptors",
-	Rule: "generated three-file IDLs (main includes inc includes root; defaults naming literals, enum values and constants of the own or an included file incl. constant chains and constant names repeated across files; namespaces, typedefs of scalars/containers/structs and typedef chains across files, enums with negative and large values, unions, exceptions, self- and mutually recursive structs, simple names declared in both files, a low-dispersion struct that forces the hash map, names whose DJB hash is 0, ids up to 32767, aliases, a struct with api.body fields that only occurs as the element of a list argument and result, requiredness, scalar and enum defaults, services with same-file and cross-file inheritance, void/oneway/throws) x parse options (ParseServiceMode, ServiceName, MapFieldWay, ParseEnumAsInt64, SetOptionalBitmap, UseDefaultValue, ParseFunctionMode, ApiBodyFastPath, EnableThriftBase); oracle = the generator's own model of the declarations: function set (own + inherited), wrappers, per reachable struct exactly the declared fields (id, name, alias, requiredness, bitmap bit, resolved type structure, default value in Go/Thrift/JSON form); FieldById over 0..65535 (full sweep in 1/8 of the cases, boundary/neighbour sample otherwise) and FieldByKey over a key family must find a field iff declared; the same key family is put to the native lookup through j2t single-member documents; non-trivial = >= 3 struct types reached",
+	Rule: "generated three-file IDLs (main includes inc includes root; defaults naming literals, enum values and constants of the own or an included file incl. constant chains and constant names repeated across files; namespaces, typedefs of scalars/containers/structs and typedef chains across files, enums with negative and large values, unions, exceptions, self- and mutually recursive structs, simple names declared in both files, a low-dispersion struct that forces the hash map, names whose DJB hash is 0, ids up to 32767, aliases, a struct with api.body fields that only occurs as the element of a list argument and result, request / response structs with base.Base / base.BaseResp fields of every requiredness (under EnableThriftBase their requires bit is cleared, Required() stays as declared), requiredness, scalar and enum defaults, services with same-file and cross-file inheritance, void/oneway/throws) x parse options (ParseServiceMode, ServiceName, MapFieldWay, ParseEnumAsInt64, SetOptionalBitmap, UseDefaultValue, ParseFunctionMode, ApiBodyFastPath, EnableThriftBase); oracle = the generator's own model of the declarations: function set (own + inherited), wrappers, per reachable struct exactly the declared fields (id, name, alias, requiredness, bitmap bit, resolved type structure, default value in Go/Thrift/JSON form); FieldById over 0..65535 (full sweep in 1/8 of the cases, boundary/neighbour sample otherwise) and FieldByKey over a key family must find a field iff declared; the same key family is put to the native lookup through j2t single-member documents; non-trivial = >= 3 struct types reached",
 	Gen: func(t *rapid.T) Case {
 		m := GenModel(t)
 		var o Opts
